@@ -26,13 +26,16 @@
   DECIDED WITNESSES of the two defects of `from_pyzx` in the tree (findings C17-1, C17-2):
   `roundtrip_drops_hadamard`, `roundtrip_misplaces_hadamard`, `roundtrip_permutes_outputs`,
   `move_right_off_by_one`; each with the repaired result next to it.
-  NOT PROVED (kept as `def … : Prop`, checked by the oracle on every run):
-  * `roundtrip_cod` (the imported diagram has `cod` outputs) — the code never checks it;
+  * `from_pyzx_cod`, `to_pyzx_layered`, `roundtrip_cod`: the number of outputs of an imported
+    diagram is counted from the graph (any graph); exported graphs are layered; hence the round
+    trip returns a diagram with the inputs and outputs of the exported one.
+  NOT PROVED (checked by the oracle on every run):
   * the MEANING clauses (tensorfy of the exported graph = matrix of the diagram; the repaired
     import denotes the graph): pyzx's tensor semantics is outside the model, and so is a matrix
     semantics of ZX diagrams; they rest on the oracle (pyzx.tensorfy vs an independent evaluator).
 -/
 import Proofs.Pyzx
+import Proofs.PyzxCod
 
 namespace DV.C17
 open DV DV.Pyzx
@@ -141,11 +144,34 @@ theorem from_pyzx_refuses (fix : Fix) (g : Graph)
   · exact Or.inl ((missingBoundary_iff g).2 h)
   · exact Or.inr ((duplicateBoundary_iff g).2 h)
 
-/-- NOT PROVED (oracle-checked on every case): the imported diagram has as many outputs as the
-    diagram that was exported. -/
-def roundtrip_cod : Prop :=
-  ∀ (fix : Fix) (d d' : ZDiagram) (g : Graph), d.WF → g.Simple → toPyzx d = .ok g →
-    fromPyzxWith fix g = .ok d' → d'.cod = d.cod
+/-- `from_pyzx` on ANY graph (tree and repairs alike): the diagram's outputs are counted from the
+    graph — the inputs, plus the later neighbours of every inner vertex (zx.py:199-200), minus its
+    earlier neighbours (zx.py:196-197) — and there are at least as many as declared outputs.  The
+    code never compares `len(scan)` with the diagram's codomain; `cod = len(scan)` is an invariant
+    of every path that does not raise (`Proofs/PyzxCod.lean`). -/
+theorem from_pyzx_cod (fix : Fix) (g : Graph) (d : ZDiagram) (h : fromPyzxWith fix g = .ok d) :
+    d.cod + sumLen (nodeInputs g) (innerNodes g) =
+      g.inputs.length + sumLen (nodeOutputs g) (innerNodes g) ∧
+    g.outputs.length ≤ d.cod := fromPyzxWith_cod fix g d h
+
+/-- The graphs `to_pyzx` returns are layered: inputs, then the spiders, then the outputs; every
+    edge runs from a non-output to a LATER non-input; every boundary vertex has one neighbour. -/
+theorem to_pyzx_layered (d : ZDiagram) (h : d.WF) (g : Graph) (hg : toPyzx d = .ok g) :
+    Layered g d.dom (nSpiders d.boxes) d.cod := by
+  rw [toPyzx_spec d h] at hg
+  cases hg
+  exact specGraph_layered d h
+
+/-- **Round trip: the imported diagram has as many inputs and outputs as the diagram that was
+    exported** (double counting of the edges of a layered graph: each is an output of its earlier
+    end and an input of its later end) — in the tree and with every repair, without the
+    simple-graph hypothesis. -/
+theorem roundtrip_cod (fix : Fix) (d d' : ZDiagram) (g : Graph) (h : d.WF)
+    (hg : toPyzx d = .ok g) (hrt : fromPyzxWith fix g = .ok d') :
+    d'.cod = d.cod ∧ d'.dom = d.dom := by
+  rw [toPyzx_spec d h] at hg
+  cases hg
+  exact Pyzx.roundtrip_cod fix d d' h hrt
 
 /-! ### Witnesses of the defects of `from_pyzx` in the tree, decided on the model -/
 
